@@ -14,7 +14,7 @@ QUICK_SPECS = [
     {"kind": "quote", "p": 1.0}, {"kind": "quote", "p": 0.4}, {"kind": "semicolons"},
     [{"kind": "ws"}, {"kind": "upper"}], [{"kind": "block", "p": 0.5}, {"kind": "swap"}, {"kind": "semicolons"}], [{"kind": "line", "p": 0.5}, {"kind": "quote", "p": 0.5}],
     [{"kind": "ins_block"}, {"kind": "ws"}, {"kind": "lower"}],
-    {"kind": "hash", "p": 0.5}, {"kind": "ins_hash", "p": 0.3},  # '#' line comments, for dialects whose lexer knows them; no other comment style beside them
+    {"kind": "hash", "p": 0.5}, {"kind": "ins_hash", "p": 0.3}, {"kind": "hash_glued", "p": 0.3},  # '#' line comments, for dialects whose lexer knows them; no other comment style beside them
 ]
 
 
